@@ -262,7 +262,10 @@ Proof. vm_compute. repeat split; reflexivity. Qed.
              carries weight or the total weight is 0 (a non-positive value of weight zero is ignored).
      kind 1  hist_ok: every dump equals the model store, every queried sample is a legal Sample (swf) and the query
              satisfies query_obs_ok (same predicates as above) for it — stated relative to the model store h_step
-             (see meta: partial).
+             (composed into statements about the observed dumps only: C09_history_observed_sound).
+     kind 3  in-place steps (ONE Sample whose Xs / Weights backing arrays are overwritten in place between the steps - the
+             harness writes into the same storage -, every Sample query re-observed after each overwrite):
+             EVERY step satisfies stats_ok for the contents current at that step (Forall stats_ok steps).
      kind 2  vec_ok: Linspace element-wise within tol_lin of lo + i (hi - lo)/(num - 1); Sum within tol_sum of Qsum;
              Map / Vectorize / Concat element-wise equal to map f xs / concat xss, inputs unmodified.
    The Welford loops / folds of Model/Sample.v do not occur in stats_ok, query_obs_ok, lin_ok. *)
@@ -429,6 +432,17 @@ Proof.
   - intro NP. unfold no_poke in NP. cbn [map fst] in NP. do 3 apply Forall_inv_tail in NP. apply Forall_inv in NP. exact NP.
   - eapply (check_hist_fresh_all _ _ _ _ _ 0%Z 3200%Z (-1)%Z []); [vm_compute; reflexivity|left; reflexivity].
 Qed.
+(* kind 3, IN-PLACE steps (real line): ONE weighted Sample {1,2,3 : 1,1,2}, its Weights array overwritten in place by
+   {2,0,1}, then both arrays cut to {1,2 : 0,0}; every Sample query re-observed after each overwrite and compared with the
+   model on the contents current at that step: accepted.  The same line with the Weight() of step 2 replaced by the total
+   of step 1 (4 instead of 3: what a memo keyed on storage identity returns) is rejected at step 1, observable 10 (Sample.Weight) *)
+Definition C09_line_inplace : list Z := [9; 3; 3; 0; 1; 3; 4607182418800017408; 4611686018427387904; 4613937818241073152; 3; 4607182418800017408; 4607182418800017408; 4611686018427387904; 4611686018427387904; 4607182418800017408; 4607182418800017408; 4610862402797412991; 4607182418800017408; 4613937818241073152; 0; 4612248968380809216; 2; 0; 2; 0; 0; 4611820602070902451; 4621256167635550208; 4616189618054758400; 4607182418800017408; 4613937818241073152; 1; 0; 1; 3; 4607182418800017408; 4611686018427387904; 4613937818241073152; 3; 4611686018427387904; 0; 4607182418800017408; 4611686018427387904; 4607182418800017408; 4607182418800017408; 4610862402797412991; 4607182418800017408; 4613937818241073152; 0; 4610184818551597738; 2; 0; 2; 0; 0; 4609174133800058615; 4617315517961601024; 4613937818241073152; 4607182418800017408; 4613937818241073152; 1; 0; 1; 2; 4607182418800017408; 4611686018427387904; 2; 0; 0; 4609434218613702656; 4602678819172646912; 4604544271217802189; 4609047870845172684; 4607182418800017408; 4611686018427387904; 0; 9221120237041090561; 2; 0; 2; 0; 0; 9221120237041090561; 0; 0; 9221120237041090561; 9221120237041090561; 1]%Z.
+Definition C09_line_inplace_stale : list Z := [9; 3; 3; 0; 1; 3; 4607182418800017408; 4611686018427387904; 4613937818241073152; 3; 4607182418800017408; 4607182418800017408; 4611686018427387904; 4611686018427387904; 4607182418800017408; 4607182418800017408; 4610862402797412991; 4607182418800017408; 4613937818241073152; 0; 4612248968380809216; 2; 0; 2; 0; 0; 4611820602070902451; 4621256167635550208; 4616189618054758400; 4607182418800017408; 4613937818241073152; 1; 0; 1; 3; 4607182418800017408; 4611686018427387904; 4613937818241073152; 3; 4611686018427387904; 0; 4607182418800017408; 4611686018427387904; 4607182418800017408; 4607182418800017408; 4610862402797412991; 4607182418800017408; 4613937818241073152; 0; 4610184818551597738; 2; 0; 2; 0; 0; 4609174133800058615; 4617315517961601024; 4616189618054758400; 4607182418800017408; 4613937818241073152; 1; 0; 1; 2; 4607182418800017408; 4611686018427387904; 2; 0; 0; 4609434218613702656; 4602678819172646912; 4604544271217802189; 4609047870845172684; 4607182418800017408; 4611686018427387904; 0; 9221120237041090561; 2; 0; 2; 0; 0; 9221120237041090561; 0; 0; 9221120237041090561; 9221120237041090561; 1]%Z.
+Example C09_inplace_example :
+  check_C09 C09_line_inplace = verdict 0 139822 (-1) [] /\
+  (exists steps, p_line C09_line_inplace = Some (KSteps steps, []) /\ length steps = 3%nat) /\
+  match check_C09 C09_line_inplace_stale with code :: _ :: pos :: obs :: _ => code = 2%Z /\ pos = 1%Z /\ obs = 10%Z | _ => False end.
+Proof. vm_compute. repeat split; try reflexivity. eexists; split; reflexivity. Qed.
 Example C09_lines_decode :
   Forall (fun l => exists cs, p_line l = Some (cs, [])) [C09_line_unw; C09_line_w; C09_line_hist; C09_line_lin; C09_line_sum].
 Proof. repeat constructor; vm_compute; eexists; reflexivity. Qed.
